@@ -295,16 +295,21 @@ def additive_terms(expr):
     raise TypeError(type(expr))
 
 
-def denote(assignment, inputs: dict, sizes: dict) -> dict:
+def denote(assignment, inputs: dict, sizes: dict, exact: bool = False) -> dict:
     """inputs: name -> {coord: value}; sizes: index -> size. Returns {target coord: value} for
-    every coordinate of the target box (zeros included)."""
+    every coordinate of the target box (zeros included). With `exact` the arithmetic is done in
+    Fractions (every binary64 is a rational), which is what the Lean specification computes; without,
+    in binary64 (exact as well whenever all values are small integers)."""
+    from fractions import Fraction
+
+    num = Fraction if exact else float
     target_idx = list(assignment.target.indexes)
     terms = additive_terms(assignment.expression)
     out = {}
     box = [range(sizes[i]) for i in target_idx]
     for coord in itertools.product(*box):
         env = dict(zip(target_idx, coord))
-        total = 0.0
+        total = num(0)
         for sign, factors in terms:
             own = []
             for f in factors:
@@ -312,16 +317,16 @@ def denote(assignment, inputs: dict, sizes: dict) -> dict:
                     for ix in f[2]:
                         if ix not in env and ix not in own:
                             own.append(ix)
-            acc = 0.0
+            acc = num(0)
             for vals in itertools.product(*[range(sizes[ix]) for ix in own]):
                 e2 = dict(env)
                 e2.update(zip(own, vals))
-                prod = 1.0
+                prod = num(1)
                 for f in factors:
                     if f[0] == "c":
-                        prod *= f[1]
+                        prod *= num(f[1])
                     else:
-                        prod *= inputs[f[1]].get(tuple(e2[ix] for ix in f[2]), 0.0)
+                        prod *= num(inputs[f[1]].get(tuple(e2[ix] for ix in f[2]), 0.0))
                 acc += prod
             total += sign * acc
         out[coord] = total
